@@ -113,9 +113,13 @@ def mkCore (d : Nat) (k : BK) (a1 a2 : E) : Except Err E :=
     let fb := factors a2
     let n1 := fa.filter (fun x => !isComm d x)
     let c1 := fa.filter (fun x => isComm d x)
-    let n2 := fb.filter (fun x => !isComm d x)
-    let c2 := fb.filter (fun x => isComm d x)
-    if n1.isEmpty || n2.isEmpty then .error .typeError    -- reduce() of empty sequence
+    -- Convect differentiates its second argument: after the `fix:` commit only coefficients
+    -- (`_coeffs_registery`: numbers, Constants) are taken out of it; before it every
+    -- commutative factor (scalar functions, coordinates) was
+    let n2 := if k == .convect then fb.filter (fun x => !isCoef x) else fb.filter (fun x => !isComm d x)
+    let c2 := if k == .convect then fb.filter (fun x => isCoef x) else fb.filter (fun x => isComm d x)
+    if k == .convect && n2.isEmpty then .ok zero          -- `if not args_2: return S.Zero`
+    else if n1.isEmpty || n2.isEmpty then .error .typeError    -- reduce() of empty sequence
     else .ok (mul [mulOf c1, mulOf c2, op2 k.op (mulOf n1) (mulOf n2)])
 
 /-- distribution over the terms of a sum: terms with functions one by one, the rest together
@@ -329,20 +333,21 @@ def divEval (d : Nat) : E → Except Err E
         let c := mulOf (numCoeffs as)
         match nonNum as with
         | [a, b] =>
-            -- div(f F) = f div F + F . grad f   (after the `fix:` commit the numeric
-            -- coefficient is kept; before it the variable holding it was overwritten)
+            -- div(f F) = f div F + F . grad f   (after the `fix:` commits the numeric
+            -- coefficient is kept — before them the variable holding it was overwritten, and
+            -- the bare `except` fallback returned Div(a*b) without it)
             if isVecLike a then
               (match gradEval d b with
                | .ok gb => (match mkBilin d .dot a gb with
                             | .ok dt => .ok (mul [c, add [mul [b, op1 .div a], dt]])
-                            | .error _ => .ok (op1 .div (mul [a, b])))
-               | .error _ => .ok (op1 .div (mul [a, b])))
+                            | .error _ => .ok (mul [c, op1 .div (mul [a, b])]))
+               | .error _ => .ok (mul [c, op1 .div (mul [a, b])]))
             else if isVecLike b then
               (match gradEval d a with
                | .ok ga => (match mkBilin d .dot b ga with
                             | .ok dt => .ok (mul [c, add [mul [a, op1 .div b], dt]])
-                            | .error _ => .ok (op1 .div (mul [a, b])))
-               | .error _ => .ok (op1 .div (mul [a, b])))
+                            | .error _ => .ok (mul [c, op1 .div (mul [a, b])]))
+               | .error _ => .ok (mul [c, op1 .div (mul [a, b])]))
             else .ok (mul [c, op1 .div (mul [a, b])])
         | vs => .ok (mul [c, op1 .div (mulOf vs)])
   | op2 .cross a b =>
